@@ -394,6 +394,67 @@ class F:
         """dst is reached only on paths that took an edge of every group (conjunction of conditions)"""
         return all(bool(gr) and self.hit_before(dst, edges=gr) for gr in edge_groups)
 
+    def value_paths(self, limit: int = 256):
+        """All acyclic entry->return paths as (literals, returned expression (expanded at the return), node): literals
+        are (positive atom text (locals expanded), truth taken).  Conditional-expression returns are split into
+        their branches.  Raises ValueError on loops or too many paths."""
+        g = self.g
+        if any(n.kind in ("for", "loop") for n in g.nodes):
+            raise ValueError("function has loops")
+        out = []
+
+        def split(e, lits):
+            if isinstance(e, ast.IfExp):
+                a, neg = M.polarity(e.test)
+                t = norm(a)
+                return split(e.body, lits + [(t, not neg)]) + split(e.orelse, lits + [(t, neg)])
+            if isinstance(e, ast.BoolOp):
+                return [(lits, e)]
+            return [(lits, e)]
+
+        def dfs(n, lits, seen, env=None):
+            env = env or {}
+            if len(out) > limit:
+                raise ValueError("too many paths")
+            node = g.nodes[n]
+            if n in seen:
+                raise ValueError("cycle")
+            if node.kind == "stmt" and isinstance(node.stmt, (ast.Assign, ast.AnnAssign)) and node.stmt.value is not None:
+                tg = node.stmt.targets if isinstance(node.stmt, ast.Assign) else [node.stmt.target]
+                if len(tg) == 1 and isinstance(tg[0], ast.Name):
+                    env = dict(env)
+                    env[tg[0].id] = self.xe_at(n, node.stmt.value)  # the value this name has on *this* path
+            if node.kind == "stmt" and isinstance(node.stmt, ast.Return):
+                rv_ = node.stmt.value
+                if isinstance(rv_, ast.Name) and rv_.id in env:
+                    v = env[rv_.id]
+                else:
+                    v = self.xe_at(n, rv_) if rv_ is not None else ast.Constant(value=None)
+                for l2, e2 in split(v, list(lits)):
+                    out.append((l2, e2, n))
+                return
+            if n in (g.exit,):
+                out.append((list(lits), ast.Constant(value=None), n))
+                return
+            if n == g.raise_exit:
+                return
+            for b, lab in g.succ[n]:
+                if lab in ("exc", "assert"):
+                    continue
+                l2 = lits
+                if node.kind == "test" and lab in ("T", "F"):
+                    key = self.x_at(n, node.exprs[0])
+                    a, neg = M.polarity(M.pat(key))
+                    key = norm(a)
+                    truth = (lab == "T") != neg
+                    if any(k == key and tv != truth for k, tv in lits):
+                        continue  # contradicts an earlier outcome of the same atom
+                    l2 = lits + [(key, truth)] if not any(k == key for k, tv in lits) else lits
+                dfs(b, l2, seen | {n}, env)
+
+        dfs(g.entry, [], frozenset())
+        return out
+
     def witness(self, dst: int, nodes: Iterable[int] = (), src: Optional[int] = None) -> List[str]:
         return self.g.path_text(self.g.find_path(dst, avoid=set(nodes), src=src))
 
